@@ -89,4 +89,11 @@ inductive DType where
   | i64
   deriving DecidableEq, Repr
 
+/-- What the per-column accumulators of the morsel loop of `TableProfile.from_dataframe` are keyed by: the column's
+name, or the `identity` of the `FlatColumn` object (random, new for every object that is made). -/
+inductive KeyKind where
+  | name
+  | identity
+  deriving DecidableEq, Repr
+
 end Profile
